@@ -25,7 +25,8 @@ def gen_small(rng):
     for _ in range(rng.choice([0, 1, 2])):
         r = rng.random()
         if r < 0.5:
-            cs.append(("AvoidPattern", kw(pattern=rng.choice(["AA", "CG", "AN", "GC", "TA", "2xA"]), location=None)))
+            cs.append(("AvoidPattern", kw(pattern=rng.choice(["AA", "CG", "AN", "GC", "TA", "2xA"]),
+                                          location=rng.choice([None, None, rloc(rng, n, strands=(0,), minlen=3)]))))
         elif r < 0.8:
             cs.append(("EnforceGCContent", kw(mini=rng.choice([0.25, 0.5]), maxi=rng.choice([0.5, 0.75]), window=4, location=None)))
         else:
@@ -177,6 +178,22 @@ def gen_cases(rng, tier):
     for _ in range(N):
         p = gen_small(rng)
         cases.append(("run", json.dumps(p, sort_keys=True), rng.choice(["resolve_exhaustive", "optimize_exhaustive"])))
+    # a failing constraint located wholly in a frozen part (outside the mutable span): no variant can
+    # repair it, the search must say so
+    for _ in range(N // 8):
+        m = rng.choice([6, 8])
+        tail = rng.choice([3, 4, 5])
+        pat = rng.choice(["GGTC", "CACG", "GAAT"])
+        head = list(rdna(rng, m))
+        i = rng.randint(0, m - len(pat))
+        head[i:i + len(pat)] = pat
+        seq = "".join(head) + rdna(rng, tail)
+        cs = [("AvoidChanges", kw(location=(0, m, 0))), ("AvoidPattern", kw(pattern=pat, location=(0, m, 0))),
+              ("AvoidPattern", kw(pattern=rng.choice(["AA", "CG", "TT"]), location=(m, m + tail, 0)))]
+        if rng.random() < 0.5:
+            cs = [cs[0], cs[2], cs[1]]
+        p0 = dict(seq=seq, constraints=tuple(cs), objectives=(), cfg=problems.gen_settings(rng), np_seed=rng.randint(0, 10**6))
+        cases.append(("run", json.dumps(p0, sort_keys=True), "resolve_exhaustive"))
     # an edit allowance given as a percentage, without location (the specification is a copy made at
     # initialisation: its flags must be those of the copy)
     for _ in range(N // 8):
